@@ -17,7 +17,8 @@ ID = 'C11'
 TITLE = 'results are plain data, the source stays reusable'
 RULE = ('merged trees from 1-3 stages over priority/!del/!merge tags (keys incl. underscore and ints) with dynamic leaves injected (!call, !bind, '
         '!eval, f-string, !xref, !path, !import, !null) and a history of up to 8 steps: re-evaluate the kept source, mutate the evaluated '
-        'config (set / delete / append / nested / attribute assignment), deep-copy it; non-trivial = >=1 dynamic node, depth >=2 and >=1 '
+        'config (set / delete / append / nested / attribute assignment / update / pop / clear / attribute reads), deep-copy it, with fresh contexts or '
+        'one shared user-supplied EvalContext; non-trivial = >=1 dynamic node, depth >=2 and >=1 '
         'mutation followed by a re-evaluation; distinct = hash of the case')
 BUDGET = {'quick': (4, 300), 'thorough': (16, 5000)}
 ASSUMPTIONS = ['mappings returned by user callables are not required to be attribute-accessible dicts',
